@@ -192,6 +192,17 @@ func setProxyDirector(proxy *httputil.ReverseProxy) {
 		req.URL.Opaque = req.RequestURI
 		req.URL.RawQuery = ""
 		req.URL.ForceQuery = false
+		// An opaque value starting with "//" would be sent as an absolute URI
+		// (scheme://authority...): a path with a leading double slash, e.g. after
+		// a rewrite, could then choose the request's authority and Host header.
+		// Send such targets as a plain path instead.
+		if strings.HasPrefix(req.RequestURI, "//") {
+			if u, err := url.ParseRequestURI(req.RequestURI); err == nil {
+				req.URL.Opaque = ""
+				req.URL.Path, req.URL.RawPath = u.Path, u.RawPath
+				req.URL.RawQuery, req.URL.ForceQuery = u.RawQuery, u.ForceQuery
+			}
+		}
 	}
 }
 
